@@ -19,6 +19,8 @@ VDIR = os.environ.get('VERIF_DIR', '/verif')
 skip_suite = '--skip-suite' in sys.argv
 src = '/tmp/seed/%s/out/%s' % (P, K)
 dst = '/verif/seeded/%s-%s' % (P, K)
+if '--reeval' in sys.argv:      # re-run the checks on an already recorded seeded change
+    src = dst
 wt = '/tmp/seedeval/%s-%s' % (P, K)
 base = json.load(open('/root/.vp/BASELINE.json'))
 always_fail = set(base['always_fail'])
@@ -82,7 +84,7 @@ finally:
     meta['check_exit_on_clean_after'] = r5.returncode
 os.makedirs(dst, exist_ok=True)
 for f in ('patch.diff', 'demo.py', 'notes.md'):
-    if os.path.exists(os.path.join(src, f)):
+    if src != dst and os.path.exists(os.path.join(src, f)):
         shutil.copy(os.path.join(src, f), os.path.join(dst, f))
 meta['needs_to_manifest'] = open(os.path.join(src, 'notes.md')).read()[:1200] if os.path.exists(os.path.join(src, 'notes.md')) else ''
 meta['what_was_run'] = ['demo.py on /repo (clean) and on a scratch worktree with patch.diff applied',
